@@ -51,7 +51,11 @@ class MeshLine1(MeshSimplex, Mesh):
             self,
             doflocs=newp,
             t=newt,
-            _subdomains=None,
+            # children of element k are the elements 2 * k and 2 * k + 1
+            _subdomains=None if self._subdomains is None else {
+                name: np.sort(np.concatenate((2 * ixs, 2 * ixs + 1)))
+                for name, ixs in self._subdomains.items()
+            },
         )
 
     def _adaptive(self, marked):
@@ -65,10 +69,23 @@ class MeshLine1(MeshSimplex, Mesh):
                           newt,
                           np.vstack((mid, t[1, marked]))))
 
+        subdomains = None
+        if self._subdomains is not None:
+            # new indices of the (halves of the) old elements
+            new_t = np.zeros((2, t.shape[1]), dtype=np.int32)
+            new_t[:, nonmarked] = np.arange(len(nonmarked))
+            new_t[0, marked] = len(nonmarked) + np.arange(len(marked))
+            new_t[1, marked] = new_t[0, marked] + len(marked)
+            subdomains = {
+                name: np.unique(new_t[:, ixs])
+                for name, ixs in self._subdomains.items()
+            }
+
         return replace(
             self,
             doflocs=newp,
             t=newt,
+            _subdomains=subdomains,
         )
 
     def param(self):
